@@ -177,6 +177,13 @@ def gen_case(rng, n=None, small=False):
         for i in rng.sample(list(good), nout):
             y[i] += rng.choice([-1, 1]) * rng.uniform(20, 300) * sig * amp
             outl.append(int(i))
+    fscale = None
+    if not gap and rng.random() < 0.15:
+        # data in physical units: y larger by 2^k, inverse variances smaller by 2^-2k (exact rescaling, the same problem)
+        kk = rng.choice([-20, 15, 30, 40])
+        fscale = 2.0 ** kk
+        y = y * fscale
+        iv = iv / (fscale * fscale)
     order = rng.choice(['sorted', 'reversed', 'shuffled', 'shuffled'])
     idx = list(np.argsort(x, kind='stable'))
     if order == 'reversed':
@@ -193,6 +200,9 @@ def gen_case(rng, n=None, small=False):
         ok = 'nbkpts'
     if gap:
         opt = ('nbkpts', rng.randrange(10, 16))
+    elif ok == 'bkspace' and rng.random() < 0.35:
+        # a spacing that divides the range of the good points exactly (pixel grids: 0..10 in steps of 1)
+        opt = ('bkspace', core.f2b(gspan / rng.randrange(2, max(3, min(9, int(ngood / (k + 1.0)) + 1)))))
     elif ok == 'bkspace':
         opt = ('bkspace', core.f2b(gspan / rng.uniform(1.3, max(1.5, min(8.0, ngood / (k + 1.0))))))
     elif ok == 'nbkpts':
@@ -206,7 +216,7 @@ def gen_case(rng, n=None, small=False):
     return {'stream': 'iterfit', 'nord': k, 'x': fb(x), 'y': fb(y), 'iv': fb(iv), 'opt': list(opt),
             'lower': None if (l := lim()) is None else core.f2b(l), 'upper': None if (u_ := lim()) is None else core.f2b(u_),
             'maxiter': rng.choice([0, 1, 2, 3, 10, 10, 20]), 'order': order, 'ties': bool(len(set(x.tolist())) < n),
-            'outliers': outl, 'nbad': nbad, 'gap': gap}
+            'outliers': outl, 'nbad': nbad, 'gap': gap, 'fscale': fscale}
 
 
 # ---------------------------------------------------------------- checking one case
